@@ -9,11 +9,82 @@ namespace Cuckoo.Model
 open Cuckoo
 variable {κ ν : Type}
 
+theorem slotSearch_go_spec (c : Cfg κ) (locked : Bool) (hp : Nat) (fuel : Nat) :
+    ∀ (t : Table κ ν) (q : Array BSlot) (first : Nat), Inv c t → (locked = true → AllMig t) →
+    Inv c (slotSearch.go c locked hp fuel t q first).1 ∧ Same c t (slotSearch.go c locked hp fuel t q first).1 ∧
+    Keeps c t (slotSearch.go c locked hp fuel t q first).1 := by
+  induction fuel with
+  | zero => intro t q first h hl; simp only [slotSearch.go]; exact ⟨h, Same.refl _ _, Keeps.refl _ _⟩
+  | succ n ih =>
+    intro t q first h hl
+    simp only [slotSearch.go]
+    split
+    · exact ⟨h, Same.refl _ _, Keeps.refl _ _⟩
+    · rename_i x hx
+      obtain ⟨hi, hs, hk, _⟩ := lockOneM_spec c locked t x.bucket h hl
+      split
+      · exact ⟨hi, hs, hk⟩
+      · obtain ⟨hi', hs', hk'⟩ := ih _ (q ++ _) (first+1) hi (fun e => hk.allmig (hl e))
+        exact ⟨hi', hs.trans hs', hk.trans hk'⟩
+
 theorem slotSearch_spec (c : Cfg κ) (locked : Bool) (hp : Nat) (t : Table κ ν) (i1 i2 : Nat) (h : Inv c t)
     (hl : locked = true → AllMig t) :
     Inv c (slotSearch c locked hp t i1 i2).1 ∧ Same c t (slotSearch c locked hp t i1 i2).1 ∧
     Keeps c t (slotSearch c locked hp t i1 i2).1 := by
-  sorry
+  unfold slotSearch
+  exact slotSearch_go_spec c locked hp _ t _ _ h hl
+
+theorem decodeSlots_lt (S : Nat) (hS : 0 < S) : ∀ (n code : Nat) (acc : List Nat), (∀ x ∈ acc, x < S) →
+    ∀ x ∈ (decodeSlots S n code acc).2, x < S := by
+  intro n
+  induction n with
+  | zero => intro code acc h; simpa [decodeSlots] using h
+  | succ n ih =>
+    intro code acc h
+    simp only [decodeSlots]
+    apply ih
+    intro x hx
+    rcases List.mem_cons.mp hx with e | e
+    · subst e; exact Nat.mod_lt _ hS
+    · exact h x e
+
+theorem PathOK_cons (c : Cfg κ) (hp : Nat) (p : PathRec) (suf : List PathRec) (hs : p.slot < c.S)
+    (hsuf : PathOK c hp suf)
+    (hh : ∀ q, suf.head? = some q → q.bucket = Spec.altIndex hp (Spec.partialKey p.hash) p.bucket) :
+    PathOK c hp (p :: suf) := by
+  cases suf with
+  | nil => exact hs
+  | cons q rest => exact ⟨hs, hh q rfl, hsuf⟩
+
+theorem buildPath_go_spec (c : Cfg κ) (locked : Bool) (hp : Nat) (slots : List Nat) :
+    ∀ (t : Table κ ν) (b : Nat) (acc : List PathRec), Inv c t → (locked = true → AllMig t) →
+    (∀ s ∈ slots, s < c.S) →
+    Inv c (buildPath.go c locked hp t b slots acc).1 ∧ Same c t (buildPath.go c locked hp t b slots acc).1 ∧
+    Keeps c t (buildPath.go c locked hp t b slots acc).1 ∧
+    ∃ suf, (buildPath.go c locked hp t b slots acc).2 = acc.reverse ++ suf ∧ PathOK c hp suf ∧
+      ∀ p0, suf.head? = some p0 → p0.bucket = b := by
+  induction slots with
+  | nil =>
+    intro t b acc h hl hs
+    simp only [buildPath.go]
+    exact ⟨h, Same.refl _ _, Keeps.refl _ _, [], by simp, trivial, by simp⟩
+  | cons s rest ih =>
+    intro t b acc h hl hs
+    simp only [buildPath.go]
+    obtain ⟨hi, hsm, hk, _⟩ := lockOneM_spec c locked t b h hl
+    have hsS : s < c.S := hs s (List.mem_cons_self)
+    split
+    · refine ⟨hi, hsm, hk, [⟨b, s, 0, 0⟩], by simp, hsS, ?_⟩
+      intro p0 e; simp at e; subst e; rfl
+    · rename_i sl hsl
+      obtain ⟨hi', hs', hk', suf, he, hok, hhd⟩ := ih (t.lockOneM c locked b)
+        (Spec.altIndex hp (Spec.partialKey (c.hash sl.key)) b)
+        (⟨b, s, c.hash sl.key, Spec.partialKey (c.hash sl.key)⟩ :: acc) hi (fun e => hk.allmig (hl e))
+        (fun x hx => hs x (List.mem_cons_of_mem _ hx))
+      refine ⟨hi', hsm.trans hs', hk.trans hk', ⟨b, s, c.hash sl.key, Spec.partialKey (c.hash sl.key)⟩ :: suf, ?_, ?_, ?_⟩
+      · rw [he]; simp
+      · exact PathOK_cons c hp _ suf hsS hok hhd
+      · intro p0 e; simp at e; subst e; rfl
 
 theorem buildPath_spec [DecidableEq κ] (c : Cfg κ) (locked : Bool) (t : Table κ ν) (i1 i2 : Nat) (x : BSlot)
     (h : Inv c t) (hl : locked = true → AllMig t) :
@@ -21,8 +92,109 @@ theorem buildPath_spec [DecidableEq κ] (c : Cfg κ) (locked : Bool) (t : Table 
     Keeps c t (buildPath c locked t.hp t i1 i2 x).1 ∧
     PathOK c t.hp (buildPath c locked t.hp t i1 i2 x).2 ∧
     (∀ p0, (buildPath c locked t.hp t i1 i2 x).2.head? = some p0 → p0.bucket = i1 ∨ p0.bucket = i2) := by
-  sorry
+  unfold buildPath
+  have hd := decodeSlots_lt c.S h.S_pos (x.depth + 1) x.pathcode [] (by simp)
+  generalize decodeSlots c.S (x.depth + 1) x.pathcode [] = d at hd
+  obtain ⟨code, slots⟩ := d
+  simp only
+  obtain ⟨hi, hs, hk, suf, he, hok, hhd⟩ := buildPath_go_spec c locked t.hp slots t (if code = 0 then i1 else i2) [] h hl hd
+  simp only [List.reverse_nil, List.nil_append] at he
+  refine ⟨hi, hs, hk, he ▸ hok, ?_⟩
+  intro p0 e
+  rw [he] at e
+  rw [hhd p0 e]
+  split <;> simp
 
+/-- `PathOK` in the reversed orientation -/
+def RPathOK (c : Cfg κ) (hp : Nat) : List PathRec → Prop
+  | [] => True
+  | [p] => p.slot < c.S
+  | to :: fr :: rest =>
+    to.slot < c.S ∧ to.bucket = Spec.altIndex hp (Spec.partialKey fr.hash) fr.bucket ∧ RPathOK c hp (fr :: rest)
+
+theorem RPathOK_snoc (c : Cfg κ) (hp : Nat) (p : PathRec) (hs : p.slot < c.S) :
+    ∀ (l : List PathRec), RPathOK c hp l →
+    (∀ q, l.getLast? = some q → q.bucket = Spec.altIndex hp (Spec.partialKey p.hash) p.bucket) →
+    RPathOK c hp (l ++ [p]) := by
+  intro l
+  induction l with
+  | nil => intro _ _; exact hs
+  | cons a tl ih =>
+    intro hok hl
+    cases tl with
+    | nil => exact ⟨hok, hl a rfl, hs⟩
+    | cons b tl' =>
+      obtain ⟨h1, h2, h3⟩ := hok
+      refine ⟨h1, h2, ?_⟩
+      apply ih h3
+      intro q hq
+      apply hl q
+      simpa [List.getLast?_cons_cons] using hq
+
+theorem RPathOK_reverse (c : Cfg κ) (hp : Nat) : ∀ (path : List PathRec), PathOK c hp path →
+    RPathOK c hp path.reverse := by
+  intro path
+  induction path with
+  | nil => intro _; trivial
+  | cons p tl ih =>
+    intro hok
+    rw [List.reverse_cons]
+    cases tl with
+    | nil => exact hok
+    | cons q rest =>
+      obtain ⟨h1, h2, h3⟩ := hok
+      apply RPathOK_snoc c hp p h1 _ (ih h3)
+      intro q' hq'
+      rw [List.getLast?_reverse] at hq'
+      simp at hq'; subst hq'; exact h2
+
+theorem pathMove_go_spec (c : Cfg κ) (locked : Bool) (i1 i2 : Nat) : ∀ (rev : List PathRec) (t : Table κ ν),
+    Inv c t → (locked = true → AllMig t) → RPathOK c t.hp rev → 2 ≤ rev.length →
+    Inv c (pathMove.go c locked i1 i2 t rev).1 ∧ Same c t (pathMove.go c locked i1 i2 t rev).1 ∧
+    Keeps c t (pathMove.go c locked i1 i2 t rev).1 ∧
+    ((pathMove.go c locked i1 i2 t rev).2 = true →
+      (pathMove.go c locked i1 i2 t rev).1.unmigB c i1 = false ∧
+      (pathMove.go c locked i1 i2 t rev).1.unmigB c i2 = false ∧
+      ∀ p0, rev.getLast? = some p0 → (pathMove.go c locked i1 i2 t rev).1.cur.get c.S p0.bucket p0.slot = none) := by
+  intro rev
+  induction rev with
+  | nil => intro t _ _ _ hlen; simp at hlen
+  | cons to tl ih =>
+    intro t h hl hok hlen
+    cases tl with
+    | nil => simp at hlen
+    | cons fr rest =>
+      obtain ⟨hslot, halt, hok'⟩ := hok
+      cases rest with
+      | nil =>
+        simp only [pathMove.go, List.isEmpty_nil, if_true]
+        obtain ⟨hi, hs, hk, u1, u2, u3⟩ := lockThreeM_spec c locked t i1 i2 to.bucket h hl
+        split
+        · exact ⟨hi, hs, hk, by simp⟩
+        · rename_i t' hhop
+          obtain ⟨hi', hs', hk', hg, _, _⟩ := hop_spec c _ t' fr to hi hhop (by rw [hk.hp]; exact halt) hslot u3
+          refine ⟨hi', hs.trans hs', hk.trans hk', fun _ => ⟨hk'.mono _ u1, hk'.mono _ u2, ?_⟩⟩
+          intro p0 e
+          simp at e; subst e; exact hg
+      | cons r rest' =>
+        simp only [pathMove.go, List.isEmpty_cons, Bool.false_eq_true, if_false]
+        obtain ⟨hi, hs, hk, u1, u2⟩ := lockTwoM_spec c locked t fr.bucket to.bucket h hl
+        split
+        · exact ⟨hi, hs, hk, by simp⟩
+        · rename_i t' hhop
+          obtain ⟨hi', hs', hk', hg, _, _⟩ := hop_spec c _ t' fr to hi hhop (by rw [hk.hp]; exact halt) hslot u2
+          have hk2 := hk.trans hk'
+          obtain ⟨hi'', hs'', hk'', hres⟩ := ih t' hi' (fun e => hk2.allmig (hl e)) (by rw [hk2.hp]; exact hok')
+            (by simp)
+          refine ⟨hi'', (hs.trans hs').trans hs'', hk2.trans hk'', ?_⟩
+          intro e
+          obtain ⟨r1, r2, r3⟩ := hres e
+          refine ⟨r1, r2, ?_⟩
+          intro p0 e0
+          apply r3
+          simpa [List.getLast?_cons_cons] using e0
+
+set_option linter.unusedVariables false in
 theorem pathMove_spec (c : Cfg κ) (locked : Bool) (t : Table κ ν) (i1 i2 : Nat) (path : List PathRec)
     (h : Inv c t) (hl : locked = true → AllMig t) (hp : PathOK c t.hp path)
     (h1 : i1 < 2 ^ t.hp) (h2 : i2 < 2 ^ t.hp) :
@@ -32,7 +204,84 @@ theorem pathMove_spec (c : Cfg κ) (locked : Bool) (t : Table κ ν) (i1 i2 : Na
       (pathMove c locked t i1 i2 path).1.unmigB c i1 = false ∧
       (pathMove c locked t i1 i2 path).1.unmigB c i2 = false ∧
       ∀ p0, path.head? = some p0 → (pathMove c locked t i1 i2 path).1.cur.get c.S p0.bucket p0.slot = none) := by
-  sorry
+  rcases path with _ | ⟨p0, _ | ⟨p1, rest⟩⟩
+  · simp only [pathMove]
+    exact ⟨h, Same.refl _ _, Keeps.refl _ _, by simp⟩
+  · simp only [pathMove]
+    obtain ⟨hi, hs, hk, u1, u2⟩ := lockTwoM_spec c locked t i1 i2 h hl
+    refine ⟨hi, hs, hk, fun e => ⟨u1, u2, ?_⟩⟩
+    intro p e0
+    simp at e0; subst e0
+    simp [Store.occ] at e
+    exact e
+  · simp only [pathMove]
+    have := pathMove_go_spec c locked i1 i2 (p0 :: p1 :: rest).reverse t h hl (RPathOK_reverse c t.hp _ hp)
+      (by simp)
+    rw [List.getLast?_reverse] at this
+    exact this
+
+
+theorem PathOK_head_slot (c : Cfg κ) (hp : Nat) (path : List PathRec) (p0 : PathRec) (hok : PathOK c hp path)
+    (hh : path.head? = some p0) : p0.slot < c.S := by
+  rcases path with _ | ⟨p, _ | ⟨q, rest⟩⟩
+  · simp at hh
+  · simp at hh; subst hh; exact hok
+  · simp at hh; subst hh; exact hok.1
+
+theorem runCuckoo_go_spec [DecidableEq κ] (c : Cfg κ) (locked : Bool) (i1 i2 hp : Nat) (fuel : Nat) :
+    ∀ (t : Table κ ν), Inv c t → (locked = true → AllMig t) → t.hp = hp → i1 < 2 ^ hp → i2 < 2 ^ hp →
+    Inv c (runCuckoo.go c locked i1 i2 hp fuel t).1 ∧ Same c t (runCuckoo.go c locked i1 i2 hp fuel t).1 ∧
+    Keeps c t (runCuckoo.go c locked i1 i2 hp fuel t).1 ∧
+    match (runCuckoo.go c locked i1 i2 hp fuel t).2 with
+    | .ok b s => (b = i1 ∨ b = i2) ∧ s < c.S ∧ (runCuckoo.go c locked i1 i2 hp fuel t).1.cur.get c.S b s = none ∧
+        (runCuckoo.go c locked i1 i2 hp fuel t).1.unmigB c i1 = false ∧
+        (runCuckoo.go c locked i1 i2 hp fuel t).1.unmigB c i2 = false
+    | _ => True := by
+  induction fuel with
+  | zero => intro t h _ _ _ _; simp only [runCuckoo.go]; exact ⟨h, Same.refl _ _, Keeps.refl _ _, trivial⟩
+  | succ n ih =>
+    intro t h hl hhp h1 h2
+    simp only [runCuckoo.go]
+    have hss := slotSearch_spec c locked hp t i1 i2 h hl
+    generalize slotSearch c locked hp t i1 i2 = r at hss
+    obtain ⟨t1, o⟩ := r
+    obtain ⟨hi, hs, hk⟩ := hss
+    simp only at hi hs hk
+    cases o with
+    | none => exact ⟨hi, hs, hk, trivial⟩
+    | some x =>
+      simp only
+      have e1 : t1.hp = hp := hk.hp.trans hhp
+      have hl1 : locked = true → AllMig t1 := fun e => hk.allmig (hl e)
+      have hbp := buildPath_spec c locked t1 i1 i2 x hi hl1
+      rw [e1] at hbp
+      generalize buildPath c locked hp t1 i1 i2 x = r2 at hbp
+      obtain ⟨t2, path⟩ := r2
+      obtain ⟨hi2, hs2, hk2, hok, hhead⟩ := hbp
+      simp only at hi2 hs2 hk2 hok hhead ⊢
+      have e2 : t2.hp = hp := hk2.hp.trans e1
+      have hl2 : locked = true → AllMig t2 := fun e => hk2.allmig (hl1 e)
+      have hpm := pathMove_spec c locked t2 i1 i2 path hi2 hl2 (by rw [e2]; exact hok) (by rw [e2]; exact h1)
+        (by rw [e2]; exact h2)
+      generalize pathMove c locked t2 i1 i2 path = r3 at hpm
+      obtain ⟨t3, ok⟩ := r3
+      obtain ⟨hi3, hs3, hk3, hres⟩ := hpm
+      simp only at hi3 hs3 hk3 hres
+      have hs03 := (hs.trans hs2).trans hs3
+      have hk03 := (hk.trans hk2).trans hk3
+      cases ok with
+      | true =>
+        simp only
+        obtain ⟨u1, u2, hg⟩ := hres rfl
+        cases hph : path.head? with
+        | none => exact ⟨hi3, hs03, hk03, trivial⟩
+        | some p0 =>
+          exact ⟨hi3, hs03, hk03, hhead p0 hph, PathOK_head_slot c hp path p0 hok hph, hg p0 hph, u1, u2⟩
+      | false =>
+        simp only
+        have e3 : t3.hp = hp := hk03.hp.trans hhp
+        obtain ⟨hi4, hs4, hk4, hres4⟩ := ih t3 hi3 (fun e => hk03.allmig (hl e)) e3 h1 h2
+        exact ⟨hi4, hs03.trans hs4, hk03.trans hk4, hres4⟩
 
 theorem runCuckoo_spec [DecidableEq κ] (c : Cfg κ) (locked : Bool) (t : Table κ ν) (i1 i2 : Nat)
     (h : Inv c t) (hl : locked = true → AllMig t) (h1 : i1 < 2 ^ t.hp) (h2 : i2 < 2 ^ t.hp) :
@@ -42,6 +291,7 @@ theorem runCuckoo_spec [DecidableEq κ] (c : Cfg κ) (locked : Bool) (t : Table 
     | .ok b s => (b = i1 ∨ b = i2) ∧ s < c.S ∧ (runCuckoo c locked t i1 i2).1.cur.get c.S b s = none ∧
         (runCuckoo c locked t i1 i2).1.unmigB c i1 = false ∧ (runCuckoo c locked t i1 i2).1.unmigB c i2 = false
     | _ => True := by
-  sorry
+  unfold runCuckoo
+  exact runCuckoo_go_spec c locked i1 i2 t.hp 64 t h hl rfl h1 h2
 
 end Cuckoo.Model
